@@ -3,6 +3,7 @@
 package arp
 
 import (
+	"encoding/binary"
 	"fmt"
 	"net"
 
@@ -64,7 +65,9 @@ func (s *ScanMethod) ProcessPacketData(data []byte, _ *gopacket.CaptureInfo) err
 		return nil
 	}
 	// only Ethernet/IPv4 ARP has a 6-byte hardware and a 4-byte protocol address to report
-	if s.rcvARP.AddrType != layers.LinkTypeEthernet || s.rcvARP.Protocol != layers.EthernetTypeIPv4 ||
+	// (gopacket keeps only the low byte of the 16-bit hardware type, check the raw field)
+	if len(s.rcvARP.Contents) < 2 || binary.BigEndian.Uint16(s.rcvARP.Contents) != uint16(layers.LinkTypeEthernet) ||
+		s.rcvARP.Protocol != layers.EthernetTypeIPv4 ||
 		s.rcvARP.HwAddressSize != 6 || s.rcvARP.ProtAddressSize != 4 {
 		return nil
 	}
